@@ -180,6 +180,8 @@ structure OracleTab where
   pf : List (Str × Option FVal) := []
   trim : List (Str × Str) := []
   tparse : List (Str × Str × Option GoTime) := []
+  tunix : List (Int × GoTime) := []
+  tfloat : List (FVal × GoTime) := []
 
 def OracleTab.toOracle (t : OracleTab) : Oracle where
   fmtFloat s v := ((t.fmt.find? (fun e => e.1 == .flt s v)).map (·.2)).getD (ofString "?fmt")
@@ -187,6 +189,8 @@ def OracleTab.toOracle (t : OracleTab) : Oracle where
   parseFloat s := ((t.pf.find? (fun e => e.1 == s)).map (·.2)).getD none
   trim s := ((t.trim.find? (fun e => e.1 == s)).map (·.2)).getD s
   timeParse l s := ((t.tparse.find? (fun e => e.1 == l && e.2.1 == s)).map (·.2.2)).getD none
+  timeUnix v := (t.tunix.find? (fun e => e.1 == v)).map (·.2)
+  timeFromFloat v := (t.tfloat.find? (fun e => e.1 == v)).map (·.2)
 
 def pOracleEntry (t : OracleTab) : P OracleTab := do
   let kind ← next
@@ -209,6 +213,16 @@ def pOracleEntry (t : OracleTab) : P OracleTab := do
       | .time tm => some tm
       | _ => none
     pure { t with tparse := (l, s, v) :: t.tparse }
+  | "tu" => do
+    let v ← pInt; let c ← pCell
+    match c with
+    | .time tm => pure { t with tunix := (v, tm) :: t.tunix }
+    | _ => throw "bad tu entry"
+  | "tf" => do
+    let a ← pCell; let c ← pCell
+    match a, c with
+    | .flt _ v, .time tm => pure { t with tfloat := (v, tm) :: t.tfloat }
+    | _, _ => throw "bad tf entry"
   | k => throw s!"bad oracle entry {k}"
 
 def pOracle : P OracleTab := do
